@@ -628,6 +628,12 @@ func main() {
 	for _, s := range scenarios() {
 		runScenario(s.sc, s.bound)
 	}
+	d6 := 4
+	if report.Thorough() {
+		d6 = 5
+	}
+	e6(d6)
+	res.Info["E6"] = fmt.Sprintf("least-connections over the assembled system (2 engines, 2 endpoints): every history to depth %d over {fail:A, fail:B, hold, ok}; the first attempt of every request goes to an endpoint whose true number of in-flight requests is minimal", d6)
 	res.Info["bounds"] = map[string]any{"priority_lists_max_n": maxN, "rng_cells": cells, "rr_sequential_max_n": 5, "rr_k_max": 3,
 		"lc_count_vectors": "counts 0..3 x routable/non-routable, n<=4", "sched_preemption_bound_lc": map[string]int{"quick": 2, "thorough": 3}[report.Tier], "sched_preemption_bound_rr": "unbounded"}
 	res.Info["rule"] = "states = distinct (scenario, observation) fingerprints; every enumerated list/vector and every schedule is executed on the real selectors created through balancer.Factory"
